@@ -38,6 +38,8 @@ const (
 	tBool
 	tG     // group element (abstract)
 	tListG // slice of group elements
+	tTr    // Fiat-Shamir transcript
+	tBytes // a label
 )
 
 func (t lty) lean() string {
@@ -56,6 +58,10 @@ func (t lty) lean() string {
 		return "G"
 	case tListG:
 		return "List G"
+	case tTr:
+		return "Tr"
+	case tBytes:
+		return "Bytes"
 	}
 	return "?"
 }
@@ -81,7 +87,25 @@ type loopFn struct {
 	results []lty
 	option  bool   // last Go result is `error`
 	recv    string // receiver name ("" if none); receiver fields become leading params
+	proto   bool   // protocol function: leading parameters enc, bvec, multiScalar
+	hasTr   bool   // takes (and mutates) the transcript: it is returned as the last component
+	flat    []int  // for each Go parameter, how many Lean parameters it was flattened into
+	structBase []string // for each Go parameter, its name (prefix of the flattened Lean names)
 }
+
+// struct parameters are flattened into their fields
+var structFields = map[string][][2]string{
+	"*IPAConfig": {{"Q", "G"}, {"SRS", "ListG"}, {"numRounds", "Int"}},
+	"IPAProof":   {{"L", "ListG"}, {"R", "ListG"}, {"A_scalar", "K"}},
+	"*IPAProof":  {{"L", "ListG"}, {"R", "ListG"}, {"A_scalar", "K"}},
+}
+
+func fieldTy(s string) lty {
+	return map[string]lty{"G": tG, "ListG": tListG, "Int": tInt, "K": tK}[s]
+}
+
+const protoParams = "(enc : Enc K G) (bvec : K → List K) (multiScalar : List G → List K → Option G)"
+const protoArgs = "enc bvec multiScalar"
 
 type loopTr struct {
 	fns    map[string]*loopFn // Go name -> signature (helpers already translated)
@@ -90,6 +114,9 @@ type loopTr struct {
 	cur    *loopFn
 	sb     *strings.Builder
 	fields []string // receiver fields, in order
+	labels map[string]bool
+	tmpN   int
+	optLoop int // nesting depth of loops that can be left by an error return
 }
 
 func goType(e ast.Expr) (lty, bool) {
@@ -108,6 +135,8 @@ func goType(e ast.Expr) (lty, bool) {
 		return tG, true
 	case "[]banderwagon.Element":
 		return tListG, true
+	case "*common.Transcript":
+		return tTr, true
 	}
 	return 0, false
 }
@@ -132,6 +161,9 @@ func (t *loopTr) typeOf(e ast.Expr) lty {
 		if x.Name == "true" || x.Name == "false" {
 			return tBool
 		}
+		if t.labels[x.Name] {
+			return tBytes
+		}
 		if _, ok := t.consts[x.Name]; ok {
 			return tInt
 		}
@@ -144,7 +176,15 @@ func (t *loopTr) typeOf(e ast.Expr) lty {
 		if t.cur.recv != "" && strings.HasPrefix(s, t.cur.recv+".") {
 			return tListK
 		}
+		if ty, ok := t.vars[strings.ReplaceAll(s, ".", "")]; ok {
+			return ty
+		}
 		die("loops: %s: unknown selector %s", t.cur.name, s)
+	case *ast.CompositeLit:
+		if ty, ok := goType(x.Type); ok {
+			return ty
+		}
+		die("loops: %s: unsupported composite literal %s", t.cur.name, exprStr(x.Type))
 	case *ast.IndexExpr:
 		switch t.typeOf(x.X) {
 		case tListK:
@@ -170,10 +210,10 @@ func (t *loopTr) typeOf(e ast.Expr) lty {
 			return tK
 		case "len", "int", "uint64", "uint8", "uint32":
 			return tInt
-		case "fr.BatchInvert", "BatchInvert":
+		case "fr.BatchInvert", "BatchInvert", "computeBVector":
 			return tListK
 		}
-		if sel, ok := x.Fun.(*ast.SelectorExpr); ok && sel.Sel.Name == "IsZero" {
+		if sel, ok := x.Fun.(*ast.SelectorExpr); ok && (sel.Sel.Name == "IsZero" || sel.Sel.Name == "Equal") {
 			return tBool
 		}
 		if f := t.lookupFn(fn); f != nil && len(f.results) == 1 && !f.option {
@@ -207,6 +247,11 @@ func (t *loopTr) intExpr(e ast.Expr) string {
 			die("loops: %s: %s is not an integer", t.cur.name, x.Name)
 		}
 		return x.Name
+	case *ast.SelectorExpr:
+		n := strings.ReplaceAll(exprStr(x), ".", "")
+		if t.vars[n] == tInt {
+			return n
+		}
 	case *ast.UnaryExpr:
 		if x.Op == token.SUB {
 			return "(-" + t.intExpr(x.X) + ")"
@@ -215,6 +260,12 @@ func (t *loopTr) intExpr(e ast.Expr) string {
 		op := map[token.Token]string{token.ADD: "+", token.SUB: "-", token.MUL: "*", token.QUO: "/", token.REM: "%"}[x.Op]
 		if op != "" {
 			return "(" + t.intExpr(x.X) + " " + op + " " + t.intExpr(x.Y) + ")"
+		}
+		if x.Op == token.AND {
+			return "(Loop.band " + t.intExpr(x.X) + " " + t.intExpr(x.Y) + ")"
+		}
+		if x.Op == token.SHL {
+			return "(Loop.shl " + t.intExpr(x.X) + " " + t.intExpr(x.Y) + ")"
 		}
 	case *ast.CallExpr:
 		switch exprStr(x.Fun) {
@@ -263,6 +314,9 @@ func (t *loopTr) condExpr(e ast.Expr) string {
 		if sel, ok := x.Fun.(*ast.SelectorExpr); ok && sel.Sel.Name == "IsZero" && len(x.Args) == 0 {
 			return "(" + t.valExpr(sel.X) + " = 0)"
 		}
+		if sel, ok := x.Fun.(*ast.SelectorExpr); ok && sel.Sel.Name == "Equal" && len(x.Args) == 1 && t.typeOf(sel.X) == tG {
+			return "(enc.eqG " + t.valExpr(sel.X) + " " + t.valExpr(x.Args[0]) + " = true)"
+		}
 	}
 	die("loops: %s: unsupported condition %s", t.cur.name, exprStr(e))
 	return ""
@@ -286,14 +340,45 @@ func (t *loopTr) callExpr(c *ast.CallExpr) string {
 		}
 		args = append(args, t.fields...)
 	}
-	if len(c.Args) != len(f.params) {
+	if f.proto {
+		args = append(args, protoArgs)
+	}
+	if f.flat == nil {
+		if len(c.Args) != len(f.params) {
+			die("loops: %s: arity of %s", t.cur.name, fn)
+		}
+		for i, a := range c.Args {
+			if f.ptypes[i] == tInt {
+				args = append(args, t.intExpr(a))
+			} else {
+				args = append(args, t.valExpr(a))
+			}
+		}
+		return "(" + f.name + " " + strings.Join(args, " ") + ")"
+	}
+	if len(c.Args) != len(f.flat) {
 		die("loops: %s: arity of %s", t.cur.name, fn)
 	}
+	pi := 0
 	for i, a := range c.Args {
-		if f.ptypes[i] == tInt {
-			args = append(args, t.intExpr(a))
-		} else {
-			args = append(args, t.valExpr(a))
+		if f.flat[i] == 1 {
+			if f.ptypes[pi] == tInt {
+				args = append(args, t.intExpr(a))
+			} else {
+				args = append(args, t.valExpr(a))
+			}
+			pi++
+			continue
+		}
+		// a struct argument: pass the flattened fields of the caller's variable of the same shape
+		if u, ok := a.(*ast.UnaryExpr); ok && u.Op == token.AND {
+			a = u.X
+		}
+		base := strings.ReplaceAll(exprStr(a), ".", "")
+		for k := 0; k < f.flat[i]; k++ {
+			suffix := strings.TrimPrefix(f.params[pi], f.structBase[i])
+			args = append(args, base+suffix)
+			pi++
 		}
 	}
 	return "(" + f.name + " " + strings.Join(args, " ") + ")"
@@ -317,6 +402,9 @@ func (t *loopTr) valExpr(e ast.Expr) string {
 		if x.Name == "true" || x.Name == "false" {
 			return x.Name
 		}
+		if t.labels[x.Name] {
+			return x.Name
+		}
 		if ty, ok := t.vars[x.Name]; ok {
 			if ty == tInt {
 				return t.intExpr(e)
@@ -338,6 +426,24 @@ func (t *loopTr) valExpr(e ast.Expr) string {
 				}
 			}
 		}
+		if n := strings.ReplaceAll(s, ".", ""); true {
+			if ty, ok := t.vars[n]; ok {
+				if ty == tInt {
+					return t.intExpr(e)
+				}
+				return n
+			}
+		}
+	case *ast.CompositeLit:
+		ty, ok := goType(x.Type)
+		if !ok || (ty != tListK && ty != tListG) {
+			die("loops: %s: unsupported composite literal", t.cur.name)
+		}
+		var els []string
+		for _, el := range x.Elts {
+			els = append(els, t.valExpr(el))
+		}
+		return "([" + strings.Join(els, ", ") + "] : " + ty.lean() + ")"
 	case *ast.IndexExpr:
 		base := t.valExpr(x.X)
 		return "(Loop.get " + base + " " + t.intExpr(x.Index) + " " + t.typeOf(e).zero() + ")"
@@ -367,8 +473,10 @@ func (t *loopTr) valExpr(e ast.Expr) string {
 			return "(" + t.lookupFn("BatchInvert").name + " " + t.valExpr(x.Args[0]) + ")"
 		case "int", "uint64", "uint8", "uint32", "len":
 			return t.intExpr(e)
+		case "computeBVector":
+			return "(bvec " + t.valExpr(x.Args[1]) + ")"
 		}
-		if sel, ok := x.Fun.(*ast.SelectorExpr); ok && sel.Sel.Name == "IsZero" {
+		if sel, ok := x.Fun.(*ast.SelectorExpr); ok && (sel.Sel.Name == "IsZero" || sel.Sel.Name == "Equal") {
 			return "(decide " + t.condExpr(e) + ")"
 		}
 		return t.callExpr(x)
@@ -416,6 +524,21 @@ func (t *loopTr) assigned(stmts []ast.Stmt) []string {
 					}
 				}
 			case *ast.AssignStmt:
+				for _, r := range x.Rhs {
+					ast.Inspect(r, func(n ast.Node) bool {
+						if c, ok := n.(*ast.CallExpr); ok {
+							if sel, ok := c.Fun.(*ast.SelectorExpr); ok && sel.Sel.Name == "ChallengeScalar" {
+								if n := base(sel.X); n != "" {
+									add(n)
+								}
+							}
+							if f := t.lookupFn(exprStr(c.Fun)); f != nil && f.hasTr {
+								add("transcript")
+							}
+						}
+						return true
+					})
+				}
 				for _, l := range x.Lhs {
 					if x.Tok == token.DEFINE {
 						if id, ok := l.(*ast.Ident); ok {
@@ -423,14 +546,15 @@ func (t *loopTr) assigned(stmts []ast.Stmt) []string {
 							continue
 						}
 					}
-					if n := base(l); n != "" && n != "_" {
+					if n := base(l); n != "" && n != "_" && n != "err" {
 						add(n)
 					}
 				}
 			case *ast.ExprStmt:
 				if c, ok := x.X.(*ast.CallExpr); ok {
 					if sel, ok := c.Fun.(*ast.SelectorExpr); ok {
-						if _, isMethod := fieldMethods[sel.Sel.Name]; isMethod {
+						_, isMethod := fieldMethods[sel.Sel.Name]
+						if isMethod || sel.Sel.Name == "DomainSep" || sel.Sel.Name == "AppendPoint" || sel.Sel.Name == "AppendScalar" {
 							if n := base(sel.X); n != "" {
 								add(n)
 							}
@@ -530,6 +654,9 @@ func (t *loopTr) block(ind string, stmts []ast.Stmt, k string, cont string) {
 						fmt.Fprintf(t.sb, "%slet %s : %s := %s\n", ind, n.Name, ty.lean(), t.valExpr(vs.Values[j]))
 						continue
 					}
+					if exprStr(vs.Type) == "error" {
+						continue
+					}
 					ty, ok := goType(vs.Type)
 					if !ok {
 						die("loops: %s: unsupported declaration %s", t.cur.name, exprStr(vs.Type))
@@ -554,6 +681,81 @@ func (t *loopTr) block(ind string, stmts []ast.Stmt, k string, cont string) {
 			}
 			if x.Tok != token.DEFINE && x.Tok != token.ASSIGN {
 				die("loops: %s: unsupported assignment operator in %s", t.cur.name, exprStr(x.Lhs[0]))
+			}
+			// `x, err := f(...)` followed by `if err != nil { return ... }`: a bind in the Option monad
+			if len(x.Rhs) == 1 && len(x.Lhs) >= 2 && exprStr(x.Lhs[len(x.Lhs)-1]) == "err" {
+				c, ok := x.Rhs[0].(*ast.CallExpr)
+				if !ok {
+					die("loops: %s: unsupported error-returning expression", t.cur.name)
+				}
+				fnName := exprStr(c.Fun)
+				var call string
+				var rtys []lty
+				if fnName == "MultiScalar" {
+					call = "(multiScalar " + t.valExpr(c.Args[0]) + " " + t.valExpr(c.Args[1]) + ")"
+					rtys = []lty{tG}
+				} else {
+					f := t.lookupFn(fnName)
+					if f == nil || !f.option || f.hasTr {
+						die("loops: %s: unsupported error-returning call %s", t.cur.name, fnName)
+					}
+					call = t.callExpr(c)
+					rtys = f.results
+				}
+				if len(rtys) != len(x.Lhs)-1 {
+					die("loops: %s: arity of %s", t.cur.name, fnName)
+				}
+				if len(rest) == 0 {
+					die("loops: %s: error of %s is not checked", t.cur.name, fnName)
+				}
+				chk, ok := rest[0].(*ast.IfStmt)
+				if !ok || exprStr(chk.Cond) != "err != nil" || len(chk.Body.List) != 1 {
+					die("loops: %s: error of %s is not checked immediately", t.cur.name, fnName)
+				}
+				if _, ok := chk.Body.List[0].(*ast.ReturnStmt); !ok {
+					die("loops: %s: error branch of %s does not return", t.cur.name, fnName)
+				}
+				var names []string
+				for j, l := range x.Lhs[:len(x.Lhs)-1] {
+					id, ok := l.(*ast.Ident)
+					if !ok {
+						die("loops: %s: unsupported bind target", t.cur.name)
+					}
+					if define || t.vars[id.Name] == 0 && id.Name != "_" {
+						t.vars[id.Name] = rtys[j]
+					}
+					t.vars[id.Name] = rtys[j]
+					names = append(names, id.Name)
+				}
+				fmt.Fprintf(t.sb, "%smatch %s with\n%s| none => none\n%s| some %s =>\n", ind, call, ind, ind, tuple(names))
+				t.block(ind+"  ", rest[1:], k, cont)
+				return
+			}
+			// `x := transcript.ChallengeScalar(label)` / `xs[i] = transcript.ChallengeScalar(label)`
+			if len(x.Lhs) == 1 && len(x.Rhs) == 1 {
+				if c, ok := x.Rhs[0].(*ast.CallExpr); ok {
+					if sel, ok := c.Fun.(*ast.SelectorExpr); ok && sel.Sel.Name == "ChallengeScalar" && t.typeOf(sel.X) == tTr {
+						t.tmpN++
+						tmp := fmt.Sprintf("c_%d", t.tmpN)
+						tr := t.valExpr(sel.X)
+						fmt.Fprintf(t.sb, "%slet (%s, %s) := Tr.challenge enc %s %s\n", ind, tmp, tr, tr, t.valExpr(c.Args[0]))
+						t.vars[tmp] = tK
+						t.assign(ind, x.Lhs[0], tmp, define, tK)
+						continue
+					}
+					// a call of a translated function that takes the transcript (and has no error result)
+					if f := t.lookupFn(exprStr(c.Fun)); f != nil && f.hasTr && !f.option {
+						if len(f.results) != 1 {
+							die("loops: %s: unsupported transcript-returning call", t.cur.name)
+						}
+						t.tmpN++
+						tmp := fmt.Sprintf("r_%d", t.tmpN)
+						fmt.Fprintf(t.sb, "%slet (%s, transcript) := %s\n", ind, tmp, t.callExpr(c))
+						t.vars[tmp] = f.results[0]
+						t.assign(ind, x.Lhs[0], tmp, define, f.results[0])
+						continue
+					}
+				}
 			}
 			if len(x.Lhs) > 1 && len(x.Rhs) == 1 {
 				c, ok := x.Rhs[0].(*ast.CallExpr)
@@ -610,6 +812,20 @@ func (t *loopTr) block(ind string, stmts []ast.Stmt, k string, cont string) {
 			sel, ok := c.Fun.(*ast.SelectorExpr)
 			if !ok {
 				die("loops: %s: unsupported call statement %s", t.cur.name, exprStr(c))
+			}
+			if t.typeOf(sel.X) == tTr {
+				tr := t.valExpr(sel.X)
+				switch sel.Sel.Name {
+				case "DomainSep":
+					fmt.Fprintf(t.sb, "%slet %s : Tr := Tr.domainSep %s %s\n", ind, tr, tr, t.valExpr(c.Args[0]))
+				case "AppendPoint":
+					fmt.Fprintf(t.sb, "%slet %s : Tr := Tr.appendPoint enc %s %s %s\n", ind, tr, tr, t.valExpr(c.Args[0]), t.valExpr(c.Args[1]))
+				case "AppendScalar":
+					fmt.Fprintf(t.sb, "%slet %s : Tr := Tr.appendScalar enc %s %s %s\n", ind, tr, tr, t.valExpr(c.Args[0]), t.valExpr(c.Args[1]))
+				default:
+					die("loops: %s: unsupported transcript method %s", t.cur.name, sel.Sel.Name)
+				}
+				continue
 			}
 			ar, ok := fieldMethods[sel.Sel.Name]
 			if !ok || ar != len(c.Args) {
@@ -679,7 +895,9 @@ func (t *loopTr) block(ind string, stmts []ast.Stmt, k string, cont string) {
 			t.restore(saved)
 			fmt.Fprintf(t.sb, "%s  else %s\n", ind, tuple(live))
 		case *ast.ForStmt:
-			t.forLoop(ind, x)
+			if t.forLoop(ind, x, rest, k, cont) {
+				return
+			}
 		case *ast.BranchStmt:
 			if x.Tok != token.CONTINUE || cont == "" {
 				die("loops: %s: unsupported branch statement", t.cur.name)
@@ -714,6 +932,9 @@ func (t *loopTr) resultType() string {
 		parts = append(parts, r.lean())
 	}
 	ty := strings.Join(parts, " × ")
+	if t.cur.hasTr {
+		ty = "(" + ty + ") × Tr"
+	}
 	if t.cur.option {
 		return "Option (" + ty + ")"
 	}
@@ -734,6 +955,12 @@ func (t *loopTr) panicValue() string {
 
 func (t *loopTr) returnValue(r *ast.ReturnStmt) string {
 	res := r.Results
+	// `return MultiScalar(a, b)`: the callee's (value, error) pair is passed on
+	if t.cur.option && !t.cur.hasTr && len(res) == 1 {
+		if c, ok := res[0].(*ast.CallExpr); ok && exprStr(c.Fun) == "MultiScalar" {
+			return "(multiScalar " + t.valExpr(c.Args[0]) + " " + t.valExpr(c.Args[1]) + ")"
+		}
+	}
 	if t.cur.option {
 		last := exprStr(res[len(res)-1])
 		if last != "nil" {
@@ -741,16 +968,32 @@ func (t *loopTr) returnValue(r *ast.ReturnStmt) string {
 		}
 		res = res[:len(res)-1]
 	}
-	// `return &T{f1: a, f2: b}`: the field values in declaration order
+	if t.optLoop > 0 {
+		die("loops: %s: a loop is left by a non-error return", t.cur.name)
+	}
+	wrap := func(v string) string {
+		if t.cur.hasTr {
+			v = "(" + v + ", transcript)"
+		}
+		if t.cur.option {
+			return "some " + v
+		}
+		return v
+	}
+	// `return &T{f1: a, f2: b}` / `return T{...}`: the field values in declaration order
 	if len(res) == 1 {
-		if u, ok := res[0].(*ast.UnaryExpr); ok && u.Op == token.AND {
-			if cl, ok := u.X.(*ast.CompositeLit); ok {
+		e := res[0]
+		if u, ok := e.(*ast.UnaryExpr); ok && u.Op == token.AND {
+			e = u.X
+		}
+		if cl, ok := e.(*ast.CompositeLit); ok {
+			if _, isSlice := goType(cl.Type); !isSlice {
 				var parts []string
 				for _, el := range cl.Elts {
 					kv := el.(*ast.KeyValueExpr)
 					parts = append(parts, t.valExpr(kv.Value))
 				}
-				return tuple(parts)
+				return wrap(tuple(parts))
 			}
 		}
 	}
@@ -765,14 +1008,23 @@ func (t *loopTr) returnValue(r *ast.ReturnStmt) string {
 			parts = append(parts, t.valExpr(e))
 		}
 	}
-	v := tuple(parts)
-	if t.cur.option {
-		return "some " + v
-	}
-	return v
+	return wrap(tuple(parts))
 }
 
-func (t *loopTr) forLoop(ind string, f *ast.ForStmt) {
+func hasReturn(stmts []ast.Stmt) bool {
+	found := false
+	for _, s := range stmts {
+		ast.Inspect(s, func(n ast.Node) bool {
+			if _, ok := n.(*ast.ReturnStmt); ok {
+				found = true
+			}
+			return true
+		})
+	}
+	return found
+}
+
+func (t *loopTr) forLoop(ind string, f *ast.ForStmt, rest []ast.Stmt, k string, cont string) bool {
 	init, ok := f.Init.(*ast.AssignStmt)
 	if !ok || init.Tok != token.DEFINE || len(init.Lhs) != 1 {
 		die("loops: %s: unsupported loop header", t.cur.name)
@@ -784,11 +1036,14 @@ func (t *loopTr) forLoop(ind string, f *ast.ForStmt) {
 		die("loops: %s: unsupported loop header", t.cur.name)
 	}
 	start := t.intExpr(init.Rhs[0])
+	opt := hasReturn(f.Body.List)
 	var head string
 	switch {
-	case cond.Op == token.LSS && post.Tok == token.INC:
+	case cond.Op == token.LSS && post.Tok == token.INC && !opt:
 		head = "Loop.forUp " + start + " " + t.intExpr(cond.Y)
-	case cond.Op == token.GEQ && post.Tok == token.DEC:
+	case cond.Op == token.LSS && post.Tok == token.INC && opt:
+		head = "Loop.forUpOpt " + start + " " + t.intExpr(cond.Y)
+	case cond.Op == token.GEQ && post.Tok == token.DEC && !opt:
 		head = "Loop.forDown " + start + " " + t.intExpr(cond.Y)
 	default:
 		die("loops: %s: unsupported loop shape", t.cur.name)
@@ -807,21 +1062,35 @@ func (t *loopTr) forLoop(ind string, f *ast.ForStmt) {
 	for _, s := range st {
 		tys = append(tys, t.vars[s].lean())
 	}
-	fmt.Fprintf(t.sb, "%slet %s : %s := %s %s (fun (%s : Int) (%s : %s) =>\n", ind, tuple(st), strings.Join(tys, " × "), head, tuple(st), iv, "st", strings.Join(tys, " × "))
-	if len(st) == 1 {
-		fmt.Fprintf(t.sb, "%s    let %s := st\n", ind, st[0])
-	} else {
+	sty := strings.Join(tys, " × ")
+	if !opt {
+		fmt.Fprintf(t.sb, "%slet %s : %s := %s %s (fun (%s : Int) (st : %s) =>\n", ind, tuple(st), sty, head, tuple(st), iv, sty)
 		fmt.Fprintf(t.sb, "%s    let %s := st\n", ind, tuple(st))
+		saved := t.snapshot()
+		t.vars[iv] = tInt
+		t.block(ind+"    ", f.Body.List, tuple(st), tuple(st))
+		t.restore(saved)
+		fmt.Fprintf(t.sb, "%s  )\n", ind)
+		return false
 	}
+	if !t.cur.option {
+		die("loops: %s: error return inside a loop of a function without error result", t.cur.name)
+	}
+	fmt.Fprintf(t.sb, "%smatch %s (%s : %s) (fun (%s : Int) (st : %s) =>\n", ind, head, tuple(st), sty, iv, sty)
+	fmt.Fprintf(t.sb, "%s    let %s := st\n", ind, tuple(st))
 	saved := t.snapshot()
 	t.vars[iv] = tInt
-	t.block(ind+"    ", f.Body.List, tuple(st), tuple(st))
+	t.optLoop++
+	t.block(ind+"    ", f.Body.List, "some "+tuple(st), "some "+tuple(st))
+	t.optLoop--
 	t.restore(saved)
-	fmt.Fprintf(t.sb, "%s  )\n", ind)
+	fmt.Fprintf(t.sb, "%s  ) with\n%s| none => none\n%s| some %s =>\n", ind, ind, ind, tuple(st))
+	t.block(ind+"  ", rest, k, cont)
+	return true
 }
 
 // translate one function or method
-func (t *loopTr) fn(file *ast.File, goName string, leanName string) {
+func (t *loopTr) fn(file *ast.File, goName string, leanName string, proto bool) {
 	var fd *ast.FuncDecl
 	for _, d := range file.Decls {
 		if f, ok := d.(*ast.FuncDecl); ok && f.Name.Name == goName {
@@ -841,15 +1110,37 @@ func (t *loopTr) fn(file *ast.File, goName string, leanName string) {
 		f.recv = fd.Recv.List[0].Names[0].Name
 	}
 	for _, p := range fd.Type.Params.List {
+		pt := exprStr(p.Type)
+		if fields, ok := structFields[pt]; ok {
+			for _, n := range p.Names {
+				for _, fl := range fields {
+					f.params = append(f.params, n.Name+fl[0])
+					f.ptypes = append(f.ptypes, fieldTy(fl[1]))
+					t.vars[n.Name+fl[0]] = fieldTy(fl[1])
+				}
+				f.flat = append(f.flat, len(fields))
+				f.structBase = append(f.structBase, n.Name)
+			}
+			continue
+		}
 		ty, ok := goType(p.Type)
 		if !ok {
-			die("loops: %s: unsupported parameter type %s", goName, exprStr(p.Type))
+			die("loops: %s: unsupported parameter type %s", goName, pt)
 		}
 		for _, n := range p.Names {
 			f.params = append(f.params, n.Name)
 			f.ptypes = append(f.ptypes, ty)
 			t.vars[n.Name] = ty
+			f.flat = append(f.flat, 1)
+			f.structBase = append(f.structBase, n.Name)
+			if ty == tTr {
+				f.hasTr = true
+			}
 		}
+	}
+	f.proto = proto
+	if !proto {
+		f.flat = nil
 	}
 	if fd.Type.Results != nil {
 		for _, r := range fd.Type.Results.List {
@@ -860,6 +1151,10 @@ func (t *loopTr) fn(file *ast.File, goName string, leanName string) {
 			}
 			if rs == "*PrecomputedWeights" {
 				f.results = append(f.results, tListK, tListK)
+				continue
+			}
+			if rs == "IPAProof" {
+				f.results = append(f.results, tListG, tListG, tK)
 				continue
 			}
 			ty, ok := goType(r.Type)
@@ -877,6 +1172,9 @@ func (t *loopTr) fn(file *ast.File, goName string, leanName string) {
 	}
 	t.cur = f
 	var ps []string
+	if f.proto {
+		ps = append(ps, protoParams)
+	}
 	if f.recv != "" {
 		for _, k := range t.fields {
 			ps = append(ps, "("+k+" : List K)")
@@ -925,21 +1223,46 @@ func translateLoops(repo string, write func(name, imports, content string)) {
 	}
 
 	t.sb.WriteString("namespace Loops\nopen GoIpa\n\nsection\nvariable {K : Type} [Zero K] [One K] [Add K] [Sub K] [Mul K] [Neg K] [Inv K] [NatCast K] [DecidableEq K]\n\n")
-	t.fn(frEl, "BatchInvert", "batchInvert")
-	t.fn(common, "PowersOf", "powersOf")
-	t.fn(bary, "absInt", "absInt")
-	t.fn(bary, "getInvertedElement", "getInvertedElement")
-	t.fn(bary, "getRatioOfWeights", "getRatioOfWeights")
-	t.fn(bary, "computeBarycentricWeightForElement", "computeBarycentricWeightForElement")
-	t.fn(bary, "NewPrecomputedWeights", "newPrecomputedWeights")
-	t.fn(bary, "ComputeBarycentricCoefficients", "computeBarycentricCoefficients")
-	t.fn(bary, "DivideOnDomain", "divideOnDomain")
-	t.fn(cfg, "InnerProd", "innerProd")
-	t.fn(cfg, "foldScalars", "foldScalars")
-	t.fn(cfg, "splitScalars", "splitScalars")
+	t.fn(frEl, "BatchInvert", "batchInvert", false)
+	t.fn(common, "PowersOf", "powersOf", false)
+	t.fn(bary, "absInt", "absInt", false)
+	t.fn(bary, "getInvertedElement", "getInvertedElement", false)
+	t.fn(bary, "getRatioOfWeights", "getRatioOfWeights", false)
+	t.fn(bary, "computeBarycentricWeightForElement", "computeBarycentricWeightForElement", false)
+	t.fn(bary, "NewPrecomputedWeights", "newPrecomputedWeights", false)
+	t.fn(bary, "ComputeBarycentricCoefficients", "computeBarycentricCoefficients", false)
+	t.fn(bary, "DivideOnDomain", "divideOnDomain", false)
+	t.fn(cfg, "InnerProd", "innerProd", false)
+	t.fn(cfg, "foldScalars", "foldScalars", false)
+	t.fn(cfg, "splitScalars", "splitScalars", false)
 	t.sb.WriteString("end\n\nsection\nvariable {K G : Type} [Zero G] [Add G] [SMul K G]\n\n")
-	t.fn(cfg, "foldPoints", "foldPoints")
-	t.fn(cfg, "splitPoints", "splitPoints")
+	t.fn(cfg, "foldPoints", "foldPoints", false)
+	t.fn(cfg, "splitPoints", "splitPoints", false)
+	t.sb.WriteString("end\n\n")
+
+	// ---- the inner-product argument itself: prover, verifier, challenge generation
+	prover := parse(filepath.Join(repo, "ipa/prover.go"))
+	verifier := parse(filepath.Join(repo, "ipa/verifier.go"))
+	t.labels = map[string]bool{}
+	t.sb.WriteString("/-! the Fiat–Shamir labels of `ipa/prover.go` -/\n")
+	for _, l := range []string{"labelDomainSep", "labelC", "labelInputPoint", "labelOutputPoint", "labelW", "labelL", "labelR", "labelX"} {
+		v := topLevelValue(prover, l)
+		c, ok := v.(*ast.CallExpr)
+		if !ok || exprStr(c.Fun) != "[]byte" || len(c.Args) != 1 {
+			die("loops: label %s is not a []byte(\"...\") conversion", l)
+		}
+		lit, ok := c.Args[0].(*ast.BasicLit)
+		if !ok || lit.Kind != token.STRING {
+			die("loops: label %s is not a string literal", l)
+		}
+		t.sb.WriteString("def " + l + " : Bytes := str " + lit.Value + "\n")
+		t.labels[l] = true
+	}
+	t.sb.WriteString("\nsection\nvariable {K G : Type} [Zero K] [One K] [Add K] [Sub K] [Mul K] [Neg K] [Inv K] [NatCast K] [DecidableEq K]\nvariable [Zero G] [Add G] [SMul K G]\n\n")
+	t.fn(cfg, "commit", "commit", true)
+	t.fn(verifier, "generateChallenges", "generateChallenges", true)
+	t.fn(prover, "CreateIPAProof", "createIPAProof", true)
+	t.fn(verifier, "CheckIPAProof", "checkIPAProof", true)
 	t.sb.WriteString("end\n\n")
 	// names, sorted, for the tie file to check that nothing was dropped
 	var names []string
@@ -948,5 +1271,5 @@ func translateLoops(repo string, write func(name, imports, content string)) {
 	}
 	sort.Strings(names)
 	t.sb.WriteString("def translated : List String := [" + quoteAll(names) + "]\n\nend Loops\n")
-	write("Loops.lean", "import GoIpa.Model.Loop\n", t.sb.String())
+	write("Loops.lean", "import GoIpa.Model.Loop\nimport GoIpa.Model.Ipa\n", t.sb.String())
 }
